@@ -68,6 +68,8 @@ pub enum Op {
     // recursion: `Rec` binds a recursive definition whose body refers to it with `Ref`
     Rec,
     Ref,
+    /// `Ext(W(a))` where `W::parse = inp.parse(&a)` and `W::check = inp.check(&a)` (separate check path)
+    ExtWrap,
 }
 
 pub const ALL_OPS: &[Op] = &[
@@ -77,7 +79,7 @@ pub const ALL_OPS: &[Op] = &[
     Op::Filter, Op::TryMap, Op::TryMapWith, Op::ToSlice, Op::ToSpan, Op::Rep, Op::Sep, Op::Foldl, Op::Foldr,
     Op::Validate, Op::RecVia, Op::RecSkipUntil, Op::RecSkipRetry, Op::RecNested, Op::Memo, Op::Label, Op::MapErr,
     Op::WithCtx, Op::ThenWithCtx, Op::IgnoreWithCtx, Op::MapCtx, Op::CtxJust, Op::CtxRep, Op::WithState, Op::Rec,
-    Op::Ref,
+    Op::Ref, Op::ExtWrap,
 ];
 
 impl Op {
@@ -306,7 +308,7 @@ impl G {
             AndIs => k[0].nullable(),
             Delim => k.iter().all(|x| x.nullable()),
             Padded => k[0].nullable() && k[1].nullable(),
-            Map | To | Ignored | ToSlice | ToSpan | Validate | Memo | Label | MapErr | WithCtx | MapCtx | WithState => k[0].nullable(),
+            Map | To | Ignored | ToSlice | ToSpan | Validate | Memo | Label | MapErr | WithCtx | MapCtx | WithState | ExtWrap => k[0].nullable(),
             Filter | TryMap | TryMapWith => k[0].nullable(),
             Rep => self.p.lo == 0 || k[0].nullable(),
             Sep => self.p.lo == 0 || k[0].nullable() || self.p.lead,
@@ -463,6 +465,7 @@ impl G {
             WithState => format!("{}.with_state(Insp::fresh({}))", k[0], self.p.n),
             Rec => format!("recursive(|r{}| {})", self.p.n, k[0]),
             Ref => format!("r{}", self.p.n),
+            ExtWrap => format!("Ext(parse_or_check({}))", k[0]),
         }
     }
 
